@@ -357,3 +357,34 @@ def run(ctx):
             else:
                 r5.fail("site:%s:%s" % key, "panic-capable %s on query-derived data (%s <- %s): a syntactically valid command with such an argument kills the client task instead of producing a reply" % (kind, s["what"].split("::")[-1], sorted(srcs)[:6]), s["span"])
         r5.note("%d query-derived panic-capable sites" % n)
+
+    # ---------------- R6 whether a query is a command is decided by the query alone (round 5)
+    r6 = ctx.rule("C13-R6", "a query is handled by the pooler iff its whole text is a documented command: on the way to the command regex set, try_execute_command gives up (returns without matching) only on what the message itself says "
+                  "(its code, a routing comment the configured comment regexes captured) - never on a pool setting or a length limit, which would forward valid commands to the server", floor=2)
+    tec6 = ctx.body(TEC, r6)
+    if tec6:
+        ms = tec6.calls("re:^regex::regexset::string::RegexSet::matches$|RegexSet::matches$")
+        if not ms:
+            r6.missing("RegexSet::matches in try_execute_command")
+        else:
+            M = ms[0].block
+            can_reach = {b for b in range(tec6.nblocks) if M in tec6.reach([b])} | {M}
+            before = tec6.reach([0], avoid_blocks=[M])
+            nsk = 0
+            for sw in switches(tec6):
+                if sw.block not in before or sw.block not in can_reach or sw.block == M:
+                    continue
+                succs = {t for _, t in sw.targets} | {sw.otherwise}
+                skip = [t for t in succs if t is not None and t not in can_reach and not tec6.blocks[t]["cleanup"] and tec6.blocks[t]["term"]["k"] != "unreachable"]
+                if not skip:
+                    continue
+                nsk += 1
+                op = tec6.blocks[sw.block]["term"]["op"]
+                os_ = origins(tec6, op, taint=True)
+                selff = sorted({".".join(p_[1:] for p_ in o.proj if p_.startswith(".")) for o in os_ if o.kind in ("place", "param") and o.what == 1 and o.proj})
+                via_capture = any(o.kind == "call" and re.search(r"Regex::captures$|Option<T>::and_then$|Captures<'h>::get$|Captures::get$", strip_generics(o.call.name)) for o in os_)
+                r6.check(not selff or via_capture, "gives-up-on-the-message-only:bb%d" % sw.block if False else "gives-up-on-the-message-only#%d" % nsk,
+                         "the early return is decided by the message (code / captured routing comment)",
+                         "try_execute_command skips the command regexes depending on QueryRouter.%s: a valid command (any spelling, any length) can be forwarded to the server instead of being handled, and SHOW no longer reports what the SETs established" % selff,
+                         tec6.blocks[sw.block]["term"].get("span", ""))
+            r6.check(nsk >= 1, "early-returns", "%d early return(s) before the command regexes, all decided by the message" % nsk, "no early return found before the regex set (anchor changed)")
